@@ -38,6 +38,31 @@ const char* tname()
     else return "double";
 }
 
+// ------------------------------------------------------------------------------------------------------------------
+// Compile-time budget (this file has to build in a few minutes under ASan+UBSan): the index arithmetic of the library
+// does not depend on the scalar type, so
+//  - double gets the complete suite at every rank, on every tensor kind (mutable map, constant map, owning, const owning);
+//  - each of the other nine scalar types gets, at every rank, the read suite on the mutable map (shape queries, every index
+//    tuple, every prefix view, every slice, reshapes to rank 1-2) and, at ONE rank (type index mod 5, so that every rank is
+//    visited by one or two of them), also the storage conversions, the gathers and the summed-area table.
+template <class T>
+inline constexpr size_t type_index = std::is_same_v<T, int8_t>     ? 0
+                                     : std::is_same_v<T, int16_t>  ? 1
+                                     : std::is_same_v<T, int32_t>  ? 2
+                                     : std::is_same_v<T, int64_t>  ? 3
+                                     : std::is_same_v<T, uint8_t>  ? 4
+                                     : std::is_same_v<T, uint16_t> ? 5
+                                     : std::is_same_v<T, uint32_t> ? 6
+                                     : std::is_same_v<T, uint64_t> ? 7
+                                     : std::is_same_v<T, float>    ? 8
+                                                                   : 9;
+
+template <class T>
+inline constexpr bool full_suite = std::is_same_v<T, double>;
+
+template <class T, size_t R>
+inline constexpr bool with_extras = full_suite<T> || (type_index<T> % 5 + 1 == R);
+
 ///
 /// \brief heap block of exactly n*sizeof(T) bytes (n may be 0): ASan red zones on both sides.
 ///
@@ -289,9 +314,9 @@ void set_dims(view_obs_t<T>& o, const std::array<tensor_size_t, A>& d)
 
 // Eigen vector / array view
 template <class T, class TV>
-view_obs_t<T> observe_flat(const TV& v, tensor_size_t probe)
+__attribute__((noinline)) void observe_flat(const TV& v, tensor_size_t probe, view_obs_t<T>& o)
 {
-    view_obs_t<T> o;
+    o         = view_obs_t<T>{};
     o.data    = v.data();
     o.size    = v.size();
     o.rank    = 1;
@@ -306,14 +331,13 @@ view_obs_t<T> observe_flat(const TV& v, tensor_size_t probe)
             o.probe     = v(probe);
         }
     }
-    return o;
 }
 
 // Eigen matrix view (the probe is a linear position, read as m(probe / cols, probe % cols))
 template <class T, class TM>
-view_obs_t<T> observe_matrix(const TM& m, tensor_size_t probe)
+__attribute__((noinline)) void observe_matrix(const TM& m, tensor_size_t probe, view_obs_t<T>& o)
 {
-    view_obs_t<T> o;
+    o         = view_obs_t<T>{};
     o.data    = m.data();
     o.size    = m.size();
     o.rank    = 2;
@@ -329,15 +353,14 @@ view_obs_t<T> observe_matrix(const TM& m, tensor_size_t probe)
             o.probe     = m(probe / m.cols(), probe % m.cols());
         }
     }
-    return o;
 }
 
 // nano tensor view (sub-tensor, slice, reshape)
 template <class T, class TS>
-view_obs_t<T> observe_tensor(const TS& s, tensor_size_t probe)
+__attribute__((noinline)) void observe_tensor(const TS& s, tensor_size_t probe, view_obs_t<T>& o)
 {
     constexpr size_t Q = TS::rank();
-    view_obs_t<T>    o;
+    o                  = view_obs_t<T>{};
     o.data = s.data();
     o.size = s.size();
     set_dims(o, s.dims());
@@ -357,7 +380,6 @@ view_obs_t<T> observe_tensor(const TS& s, tensor_size_t probe)
             o.probe     = s(probe);
         }
     }
-    return o;
 }
 
 // does the view alias exactly [off, off + size) of the block with the expected dims?
@@ -425,43 +447,6 @@ __attribute__((noinline)) void judge_element(env_t<T>& e, const ref_t& r, const 
     }
 }
 
-template <class T, size_t R, class TT>
-void check_full_index(env_t<T>& e, const ref_t& r, TT& t, const T* base, const char* kind)
-{
-    idx_t idx{};
-    // lexicographic enumeration: the expected offset is the running counter (=> bijection onto [0,size))
-    for (tensor_size_t k = 0; k < r.size; ++k)
-    {
-        r.decode(k, R, idx);
-        elem_obs_t<T> o;
-        call_prefix<R>(
-            [&](auto... is)
-            {
-                o.offset  = t.offset(is...);
-                o.offset0 = t.offset0(is...);
-                o.addr    = &t(is...);
-                o.value   = t(is...);
-            },
-            idx);
-        o.addr_linear = &t(k);
-        judge_element(e, r, o, k, idx, base, kind);
-    }
-    e.count("offset_tuples", r.size);
-
-    // shape queries
-    bool ok = t.size() == r.size && t.rank() == R && same_dims<R>(t.dims(), r.dims.data()) && t.template size<0>() == r.dims[0] &&
-              (t.end() - t.begin()) == r.size && (r.size == 0 || t.data() == base);
-    if constexpr (R >= 2)
-    {
-        ok = ok && t.rows() == r.dims[R - 2] && t.cols() == r.dims[R - 1] && t.template size<R - 1>() == r.dims[R - 1];
-    }
-    e.count("shape_queries");
-    if (!ok)
-    {
-        e.bad("shape", kind, vf::json_t().kv("size", static_cast<long long>(t.size())).kv("expected_size", static_cast<long long>(r.size)).kv("got_dims", str_dims(t.dims())));
-    }
-}
-
 // ------------------------------------------------------------------------------------------------------------------
 // clause: every partial-index view (vector / array / matrix / sub-tensor) aliases exactly the elements obtained by
 // full indexing: [prefix offset, prefix offset + product of the remaining dims)
@@ -514,45 +499,6 @@ __attribute__((noinline)) void judge_prefix(env_t<T>& e, const ref_t& r, size_t 
     }
 }
 
-template <size_t K, class T, size_t R, class TT>
-void check_prefix(env_t<T>& e, const ref_t& r, TT& t, const T* base, const char* kind)
-{
-    static_assert(K < R);
-    const auto nprefix = r.prod(0, K);
-    const auto vsize   = r.prod(K, R);
-    idx_t      idx{};
-    for (tensor_size_t p = 0; p < nprefix; ++p)
-    {
-        r.decode(p, K, idx);
-        const auto      probe = (vsize > 2) ? e.c.rng.integer(0, vsize - 1) : tensor_size_t{0};
-        prefix_obs_t<T> o;
-        call_prefix<K>(
-            [&](auto... is)
-            {
-                o.offset0      = t.offset0(is...);
-                const auto dm0 = t.dims0(is...);
-                o.drank        = dm0.size();
-                std::copy(dm0.begin(), dm0.end(), o.dims0.begin());
-                o.vec = observe_flat<T>(t.vector(is...), probe);
-                o.arr = observe_flat<T>(t.array(is...), probe);
-                o.ten = observe_tensor<T>(t.tensor(is...), probe);
-                if constexpr (K + 2 == R)
-                {
-                    o.mat = observe_matrix<T>(t.matrix(is...), probe);
-                }
-            },
-            idx);
-        judge_prefix(e, r, K, o, idx, base, probe, kind);
-    }
-    e.count("prefix_views", 3 * nprefix);
-}
-
-template <class T, size_t R, class TT, size_t... K>
-void check_prefixes(env_t<T>& e, const ref_t& r, TT& t, const T* base, const char* kind, std::index_sequence<K...>)
-{
-    (check_prefix<K, T, R>(e, r, t, base, kind), ...);
-}
-
 // ------------------------------------------------------------------------------------------------------------------
 // clause: slice [b,e) of the first axis aliases exactly the elements (b..e-1, *, ..., *)
 template <class T>
@@ -568,45 +514,6 @@ __attribute__((noinline)) void judge_slice(env_t<T>& e, const ref_t& r, const vi
         at[0] = b;
         at[1] = en;
         bad_view(e, "slice", object, o, base, b * r.stride[0], r.rank, expected.data(), at, 2);
-    }
-}
-
-template <class T, size_t R, class TT>
-void check_slices(env_t<T>& e, const ref_t& r, TT& t, const T* base, const char* kind)
-{
-    const auto d0  = r.dims[0];
-    const auto o1  = std::string(kind) + "|begin-end";
-    const auto o2  = std::string(kind) + "|range";
-    const auto one = [&](tensor_size_t b, tensor_size_t en)
-    {
-        const auto ssize = (en - b) * r.stride[0];
-        const auto probe = (ssize > 2) ? e.c.rng.integer(0, ssize - 1) : tensor_size_t{0};
-        judge_slice(e, r, observe_tensor<T>(t.slice(b, en), probe), b, en, base, probe, o1);
-        judge_slice(e, r, observe_tensor<T>(t.slice(make_range(b, en)), probe), b, en, base, probe, o2);
-    };
-    if (d0 <= 8)
-    {
-        for (tensor_size_t b = 0; b <= d0; ++b)
-        {
-            for (tensor_size_t en = b; en <= d0; ++en)
-            {
-                one(b, en);
-            }
-        }
-    }
-    else
-    {
-        one(0, 0);
-        one(0, d0);
-        one(d0, d0);
-        one(0, 1);
-        one(d0 - 1, d0);
-        one(1, d0);
-        for (int k = 0; k < 10; ++k)
-        {
-            const auto b = e.c.rng.integer(0, d0);
-            one(b, e.c.rng.integer(b, d0));
-        }
     }
 }
 
@@ -709,46 +616,259 @@ __attribute__((noinline)) void judge_reshape(env_t<T>& e, const ref_t& r, const 
     (void)r;
 }
 
-template <size_t Q, class T, size_t R, class TT>
-void check_reshape(env_t<T>& e, const ref_t& r, TT& t, const T* base, const char* kind)
+// ------------------------------------------------------------------------------------------------------------------
+// Type-erased access to one tensor object: the shims (one small function per tensor type x accessor) only call the
+// library and record what they see; the enumeration and the judging are compiled once per scalar type.
+struct shape_obs_t
 {
-    for (const auto& f : factorisations(Q, e.c.rng, r.size))
+    tensor_size_t size{0}, size0{0}, sizelast{0}, rows{-1}, cols{-1}, span{0};
+    size_t        rank{0};
+    idx_t         dims{};
+    const void*   data{nullptr};
+};
+
+template <class T>
+struct ops_t
+{
+    const char* kind{""};
+    void*       obj{nullptr};
+    const T*    base{nullptr};
+    void (*shape)(void*, shape_obs_t&){nullptr};
+    void (*element)(void*, const idx_t&, tensor_size_t, elem_obs_t<T>&){nullptr};
+    void (*prefix[5])(void*, const idx_t&, tensor_size_t, prefix_obs_t<T>&){};
+    void (*slice)(void*, tensor_size_t, tensor_size_t, bool, tensor_size_t, view_obs_t<T>&){nullptr};
+    void (*reshape[4])(void*, const idx_t&, tensor_size_t, view_obs_t<T>&){};
+};
+
+template <class T, size_t R, class TT> // TT may be const-qualified
+struct shim_t
+{
+    static TT& self(void* obj) { return *static_cast<TT*>(obj); }
+
+    static void shape(void* obj, shape_obs_t& o)
     {
-        const auto probe = (r.size > 2) ? e.c.rng.integer(0, r.size - 1) : tensor_size_t{0};
-        // explicit factors
-        judge_reshape(e, r, observe_tensor<T>(call_prefix<Q>([&](auto... fs) { return t.reshape(fs...); }, f), probe), Q, f, f, base, probe, "reshape", kind);
-        // one inferred dimension (only where the other factors have a non-zero product)
-        for (size_t q = 0; q < Q; ++q)
+        auto& t = self(obj);
+        o.size  = t.size();
+        o.rank  = t.rank();
+        o.size0 = t.template size<0>();
+        o.sizelast = t.template size<R - 1>();
+        o.span  = t.end() - t.begin();
+        o.data  = t.data();
+        std::copy(t.dims().begin(), t.dims().end(), o.dims.begin());
+        if constexpr (R >= 2)
         {
-            tensor_size_t others = 1;
-            for (size_t i = 0; i < Q; ++i)
-            {
-                others *= (i == q) ? 1 : f[i];
-            }
-            if (others == 0)
-            {
-                continue;
-            }
-            auto g = f;
-            g[q]   = -1;
-            judge_reshape(e, r, observe_tensor<T>(call_prefix<Q>([&](auto... fs) { return t.reshape(fs...); }, g), probe), Q, g, f, base, probe, "reshape-inferred", kind);
+            o.rows = t.rows();
+            o.cols = t.cols();
         }
     }
-}
+
+    static void element(void* obj, const idx_t& idx, tensor_size_t k, elem_obs_t<T>& o)
+    {
+        auto& t = self(obj);
+        call_prefix<R>(
+            [&](auto... is)
+            {
+                o.offset  = t.offset(is...);
+                o.offset0 = t.offset0(is...);
+                o.addr    = &t(is...);
+                o.value   = t(is...);
+            },
+            idx);
+        o.addr_linear = &t(k);
+    }
+
+    template <size_t K>
+    static void prefix(void* obj, const idx_t& idx, tensor_size_t probe, prefix_obs_t<T>& o)
+    {
+        auto& t = self(obj);
+        call_prefix<K>(
+            [&](auto... is)
+            {
+                o.offset0      = t.offset0(is...);
+                const auto dm0 = t.dims0(is...);
+                o.drank        = dm0.size();
+                std::copy(dm0.begin(), dm0.end(), o.dims0.begin());
+                observe_flat<T>(t.vector(is...), probe, o.vec);
+                observe_flat<T>(t.array(is...), probe, o.arr);
+                observe_tensor<T>(t.tensor(is...), probe, o.ten);
+                if constexpr (K + 2 == R)
+                {
+                    observe_matrix<T>(t.matrix(is...), probe, o.mat);
+                }
+            },
+            idx);
+    }
+
+    static void slice(void* obj, tensor_size_t b, tensor_size_t en, bool range, tensor_size_t probe, view_obs_t<T>& o)
+    {
+        auto& t = self(obj);
+        if (range)
+        {
+            observe_tensor<T>(t.slice(make_range(b, en)), probe, o);
+        }
+        else
+        {
+            observe_tensor<T>(t.slice(b, en), probe, o);
+        }
+    }
+
+    template <size_t Q>
+    static void reshape(void* obj, const idx_t& f, tensor_size_t probe, view_obs_t<T>& o)
+    {
+        auto& t = self(obj);
+        observe_tensor<T>(call_prefix<Q>([&](auto... fs) { return t.reshape(fs...); }, f), probe, o);
+    }
+
+    template <size_t... K>
+    static void set_prefixes(ops_t<T>& ops, std::index_sequence<K...>)
+    {
+        ((ops.prefix[K] = &prefix<K>), ...);
+    }
+
+    template <bool all_reshapes>
+    static ops_t<T> make(TT& t, const T* base, const char* kind)
+    {
+        ops_t<T> ops;
+        ops.kind    = kind;
+        ops.obj     = const_cast<void*>(static_cast<const void*>(&t));
+        ops.base    = base;
+        ops.shape   = &shape;
+        ops.element = &element;
+        ops.slice   = &slice;
+        set_prefixes(ops, std::make_index_sequence<R>{});
+        ops.reshape[0] = &reshape<1>;
+        ops.reshape[1] = &reshape<2>;
+        if constexpr (all_reshapes)
+        {
+            ops.reshape[2] = &reshape<3>;
+            ops.reshape[3] = &reshape<4>;
+        }
+        return ops;
+    }
+};
 
 // everything that only reads, for one tensor object (mutable map, constant map, owning; const or not)
-template <bool all_reshapes, class T, size_t R, class TT>
-void check_reads(env_t<T>& e, const ref_t& r, TT& t, const T* base, const char* kind)
+template <class T>
+__attribute__((noinline)) void check_reads(env_t<T>& e, const ref_t& r, const ops_t<T>& ops)
 {
-    check_full_index<T, R>(e, r, t, base, kind);
-    check_prefixes<T, R>(e, r, t, base, kind, std::make_index_sequence<R>{});
-    check_slices<T, R>(e, r, t, base, kind);
-    check_reshape<1, T, R>(e, r, t, base, kind);
-    check_reshape<2, T, R>(e, r, t, base, kind);
-    if constexpr (all_reshapes)
+    const auto  R    = r.rank;
+    const auto* base = ops.base;
+    const auto* kind = ops.kind;
+    idx_t       idx{};
+
+    // shape queries
     {
-        check_reshape<3, T, R>(e, r, t, base, kind);
-        check_reshape<4, T, R>(e, r, t, base, kind);
+        shape_obs_t o;
+        ops.shape(ops.obj, o);
+        bool ok = o.size == r.size && o.rank == R && o.size0 == r.dims[0] && o.sizelast == r.dims[R - 1] && o.span == r.size &&
+                  (r.size == 0 || o.data == base) && (R < 2 || (o.rows == r.dims[R - 2] && o.cols == r.dims[R - 1]));
+        for (size_t i = 0; ok && i < R; ++i)
+        {
+            ok = o.dims[i] == r.dims[i];
+        }
+        e.count("shape_queries");
+        if (!ok)
+        {
+            e.bad("shape", kind, vf::json_t().kv("size", static_cast<long long>(o.size)).kv("expected_size", static_cast<long long>(r.size)).kv("got_dims", dims_string(o.dims.data(), o.rank)));
+        }
+    }
+    // full index: lexicographic enumeration, the expected offset is the running counter (=> bijection onto [0,size))
+    for (tensor_size_t k = 0; k < r.size; ++k)
+    {
+        r.decode(k, R, idx);
+        elem_obs_t<T> o;
+        ops.element(ops.obj, idx, k, o);
+        judge_element(e, r, o, k, idx, base, kind);
+    }
+    e.count("offset_tuples", r.size);
+    // every prefix of every length
+    for (size_t K = 0; K < R; ++K)
+    {
+        const auto nprefix = r.prod(0, K);
+        const auto vsize   = r.prod(K, R);
+        for (tensor_size_t p = 0; p < nprefix; ++p)
+        {
+            r.decode(p, K, idx);
+            const auto      probe = (vsize > 2) ? e.c.rng.integer(0, vsize - 1) : tensor_size_t{0};
+            prefix_obs_t<T> o;
+            ops.prefix[K](ops.obj, idx, probe, o);
+            judge_prefix(e, r, K, o, idx, base, probe, kind);
+        }
+        e.count("prefix_views", 3 * nprefix);
+    }
+    // slices of the first axis
+    {
+        const auto d0  = r.dims[0];
+        const auto o1  = std::string(kind) + "|begin-end";
+        const auto o2  = std::string(kind) + "|range";
+        const auto one = [&](tensor_size_t b, tensor_size_t en)
+        {
+            const auto    ssize = (en - b) * r.stride[0];
+            const auto    probe = (ssize > 2) ? e.c.rng.integer(0, ssize - 1) : tensor_size_t{0};
+            view_obs_t<T> o;
+            ops.slice(ops.obj, b, en, false, probe, o);
+            judge_slice(e, r, o, b, en, base, probe, o1);
+            ops.slice(ops.obj, b, en, true, probe, o);
+            judge_slice(e, r, o, b, en, base, probe, o2);
+        };
+        if (d0 <= 8)
+        {
+            for (tensor_size_t b = 0; b <= d0; ++b)
+            {
+                for (tensor_size_t en = b; en <= d0; ++en)
+                {
+                    one(b, en);
+                }
+            }
+        }
+        else
+        {
+            one(0, 0);
+            one(0, d0);
+            one(d0, d0);
+            one(0, 1);
+            one(d0 - 1, d0);
+            one(1, d0);
+            for (int k = 0; k < 10; ++k)
+            {
+                const auto b = e.c.rng.integer(0, d0);
+                one(b, e.c.rng.integer(b, d0));
+            }
+        }
+    }
+    // reshapes
+    for (size_t Q = 1; Q <= 4; ++Q)
+    {
+        const auto fn = ops.reshape[Q - 1];
+        if (fn == nullptr)
+        {
+            continue;
+        }
+        for (const auto& f : factorisations(Q, e.c.rng, r.size))
+        {
+            const auto    probe = (r.size > 2) ? e.c.rng.integer(0, r.size - 1) : tensor_size_t{0};
+            view_obs_t<T> o;
+            // explicit factors
+            fn(ops.obj, f, probe, o);
+            judge_reshape(e, r, o, Q, f, f, base, probe, "reshape", kind);
+            // one inferred dimension (only where the other factors have a non-zero product)
+            for (size_t q = 0; q < Q; ++q)
+            {
+                tensor_size_t others = 1;
+                for (size_t i = 0; i < Q; ++i)
+                {
+                    others *= (i == q) ? 1 : f[i];
+                }
+                if (others == 0)
+                {
+                    continue;
+                }
+                auto g = f;
+                g[q]   = -1;
+                fn(ops.obj, g, probe, o);
+                judge_reshape(e, r, o, Q, g, f, base, probe, "reshape-inferred", kind);
+            }
+        }
     }
 }
 
@@ -778,7 +898,7 @@ bool holds_codes(const env_t<T>& e, const TT& t, tensor_size_t size)
 // ------------------------------------------------------------------------------------------------------------------
 // clause: owning / mapping / constant-mapping storages convert without changing contents
 template <class T, size_t R>
-void check_conversions(env_t<T>& e, const ref_t& r, tensor_map_t<T, R>& map, const tensor_cmap_t<T, R>& cmap, const T* base)
+__attribute__((noinline)) void check_conversions(env_t<T>& e, const ref_t& r, tensor_map_t<T, R>& map, const tensor_cmap_t<T, R>& cmap, const T* base)
 {
     const auto report = [&](const char* what, bool ok)
     {
@@ -896,7 +1016,7 @@ __attribute__((noinline)) void judge_gather(env_t<T>& e, const ref_t& r, const s
 
 // variants: 1 = returned copy, 2 = returned copy cast to double, 4 = into an owning tensor, 8 = into a mapped block
 template <int variants, class T, size_t R, class TT>
-void check_gather(env_t<T>& e, const ref_t& r, const TT& t, const std::vector<tensor_size_t>& list, const char* kind)
+__attribute__((noinline)) void check_gather(env_t<T>& e, const ref_t& r, const TT& t, const std::vector<tensor_size_t>& list, const char* kind)
 {
     const auto n  = static_cast<tensor_size_t>(list.size());
     const auto st = r.stride[0];
@@ -932,41 +1052,10 @@ void check_gather(env_t<T>& e, const ref_t& r, const TT& t, const std::vector<te
     }
 }
 
-template <size_t K, class T, size_t R, class tdraw, class tfresh>
-void write_prefix(const ref_t& r, tensor_map_t<T, R>& t, idx_t& idx, const tdraw& draw, const tfresh& fresh, vf::rng_t& rng)
-{
-    draw();
-    const auto off   = r.offset(idx, K);
-    const auto vsize = r.prod(K, R);
-    call_prefix<K>(
-        [&](auto... is)
-        {
-            auto j             = rng.integer(0, vsize - 1);
-            t.vector(is...)(j) = fresh(off + j);
-            j                  = rng.integer(0, vsize - 1);
-            t.array(is...)(j)  = fresh(off + j);
-            j                  = rng.integer(0, vsize - 1);
-            t.tensor(is...)(j) = fresh(off + j);
-            if constexpr (K + 2 == R)
-            {
-                const auto cols                     = r.dims[R - 1];
-                j                                   = rng.integer(0, vsize - 1);
-                t.matrix(is...)(j / cols, j % cols) = fresh(off + j);
-            }
-        },
-        idx);
-}
-
-template <class T, size_t R, class tdraw, class tfresh, size_t... K>
-void write_prefixes(const ref_t& r, tensor_map_t<T, R>& t, idx_t& idx, const tdraw& draw, const tfresh& fresh, vf::rng_t& rng, std::index_sequence<K...>)
-{
-    (write_prefix<K>(r, t, idx, draw, fresh, rng), ...);
-}
-
 // ------------------------------------------------------------------------------------------------------------------
-// clause: views alias (writes through any view land on exactly the addressed element of the block, nowhere else)
+// clause: views alias (writes through the mutable views land on exactly the addressed element of the block, nowhere else)
 template <class T, size_t R>
-void check_writes(env_t<T>& e, const ref_t& r, tensor_map_t<T, R>& t, T* base)
+__attribute__((noinline)) void check_writes(env_t<T>& e, const ref_t& r, tensor_map_t<T, R>& t, T* base)
 {
     if (r.size == 0)
     {
@@ -986,32 +1075,56 @@ void check_writes(env_t<T>& e, const ref_t& r, tensor_map_t<T, R>& t, T* base)
         shadow[static_cast<size_t>(off)] = w;
         return w;
     };
-    idx_t idx{};
-    const auto                   draw = [&]()
+    idx_t      idx{};
+    const auto draw = [&]()
     {
         for (size_t i = 0; i < R; ++i)
         {
             idx[i] = rng.integer(0, r.dims[i] - 1);
         }
     };
-    // full index + linear index
+    // full index, linear index, whole-tensor views
     draw();
     call_prefix<R>([&](auto... is) { t(is...) = fresh(r.offset(idx, R)); }, idx);
     {
-        const auto k = rng.integer(0, r.size - 1);
-        t(k)         = fresh(k);
+        auto k        = rng.integer(0, r.size - 1);
+        t(k)          = fresh(k);
+        k             = rng.integer(0, r.size - 1);
+        t.vector()(k) = fresh(k);
+        k             = rng.integer(0, r.size - 1);
+        t.array()(k)  = fresh(k);
+        k             = rng.integer(0, r.size - 1);
+        t.tensor()(k) = fresh(k);
     }
-    // every prefix length
-    write_prefixes(r, t, idx, draw, fresh, rng, std::make_index_sequence<R>{});
+    // views of one first-axis index
+    if constexpr (R > 1)
+    {
+        draw();
+        const auto st    = r.stride[0];
+        const auto off   = idx[0] * st;
+        auto       j     = rng.integer(0, st - 1);
+        t.vector(idx[0])(j) = fresh(off + j);
+        j                = rng.integer(0, st - 1);
+        t.tensor(idx[0])(j) = fresh(off + j);
+    }
+    // the matrix of the last two dims
+    if constexpr (R >= 2)
+    {
+        draw();
+        const auto off  = r.offset(idx, R - 2);
+        const auto cols = r.dims[R - 1];
+        const auto j    = rng.integer(0, r.dims[R - 2] * cols - 1);
+        call_prefix<R - 2>([&](auto... is) { t.matrix(is...)(j / cols, j % cols) = fresh(off + j); }, idx);
+    }
     // slice, reshape
     {
-        const auto b  = rng.integer(0, r.dims[0] - 1);
-        const auto en = rng.integer(b + 1, r.dims[0]);
-        const auto j  = rng.integer(0, (en - b) * r.stride[0] - 1);
+        const auto b      = rng.integer(0, r.dims[0] - 1);
+        const auto en     = rng.integer(b + 1, r.dims[0]);
+        const auto j      = rng.integer(0, (en - b) * r.stride[0] - 1);
         t.slice(b, en)(j) = fresh(b * r.stride[0] + j);
-        const auto k        = rng.integer(0, r.size - 1);
-        t.reshape(-1)(k)    = fresh(k);
-        const auto k2       = rng.integer(0, r.size - 1);
+        const auto k      = rng.integer(0, r.size - 1);
+        t.reshape(-1)(k)  = fresh(k);
+        const auto k2     = rng.integer(0, r.size - 1);
         t.reshape(1, -1)(0, k2) = fresh(k2);
     }
     e.count("writes_through_views", writes);
@@ -1032,7 +1145,7 @@ void check_writes(env_t<T>& e, const ref_t& r, tensor_map_t<T, R>& t, T* base)
 // ------------------------------------------------------------------------------------------------------------------
 // clause: the summed-area table equals the naive prefix sums
 template <class O, class T, size_t R>
-void check_integral_out(env_t<T>& e, const ref_t& r, const block_t<T>& in, const std::vector<int64_t>& ref,
+__attribute__((noinline)) void check_integral_out(env_t<T>& e, const ref_t& r, const block_t<T>& in, const std::vector<int64_t>& ref,
                         const std::vector<std::pair<tensor_size_t, int64_t>>& naive, const char* oname)
 {
     const auto judge = [&](const O* out, const char* how)
@@ -1082,7 +1195,7 @@ void check_integral_out(env_t<T>& e, const ref_t& r, const block_t<T>& in, const
 }
 
 template <class T, size_t R>
-void check_integral(env_t<T>& e, const ref_t& r)
+__attribute__((noinline)) void check_integral(env_t<T>& e, const ref_t& r)
 {
     block_t<T> in(r.size);
     const auto sv = [&](tensor_size_t k) -> int64_t
@@ -1145,18 +1258,29 @@ void check_integral(env_t<T>& e, const ref_t& r)
             naive.emplace_back(k, box(k));
         }
     }
-    check_integral_out<int64_t, T, R>(e, r, in, ref, naive, "int64");
-    check_integral_out<double, T, R>(e, r, in, ref, naive, "double");
-    if (sizeof(T) >= 4 || 3 * r.size <= 100)
+    if constexpr (full_suite<T>)
     {
-        check_integral_out<T, T, R>(e, r, in, ref, naive, "same-type");
+        check_integral_out<int64_t, T, R>(e, r, in, ref, naive, "int64");
+        check_integral_out<double, T, R>(e, r, in, ref, naive, "double");
+        if (sizeof(T) >= 4 || 3 * r.size <= 100)
+        {
+            check_integral_out<T, T, R>(e, r, in, ref, naive, "same-type");
+        }
+    }
+    else if constexpr (std::is_floating_point_v<T>)
+    {
+        check_integral_out<double, T, R>(e, r, in, ref, naive, "double");
+    }
+    else
+    {
+        check_integral_out<int64_t, T, R>(e, r, in, ref, naive, "int64");
     }
 }
 
 // ------------------------------------------------------------------------------------------------------------------
 // clause: remove_if compacts the kept sub-tensors (first axis) in order and returns their number
 template <class T, size_t R>
-void check_remove_if(env_t<T>& e, const ref_t& r, const tensor_cmap_t<T, R>& cmap)
+__attribute__((noinline)) void check_remove_if(env_t<T>& e, const ref_t& r, const tensor_cmap_t<T, R>& cmap)
 {
     const auto d0 = r.dims[0];
     const auto st = r.stride[0];
@@ -1217,7 +1341,7 @@ void check_remove_if(env_t<T>& e, const ref_t& r, const tensor_cmap_t<T, R>& cma
 // ------------------------------------------------------------------------------------------------------------------
 // clause: stack places the blocks row-major without gaps (the blocks carry the codes of their final positions)
 template <class T>
-void check_stack_vector(env_t<T>& e, tensor_size_t n)
+__attribute__((noinline)) void check_stack_vector(env_t<T>& e, tensor_size_t n)
 {
     const auto one = [&](tensor_size_t a, tensor_size_t b)
     {
@@ -1261,7 +1385,7 @@ void check_stack_vector(env_t<T>& e, tensor_size_t n)
 }
 
 template <class T>
-void check_stack_matrix(env_t<T>& e, tensor_size_t rows, tensor_size_t cols)
+__attribute__((noinline)) void check_stack_matrix(env_t<T>& e, tensor_size_t rows, tensor_size_t cols)
 {
     if (rows < 1 || cols < 1)
     {
@@ -1352,91 +1476,52 @@ void check_stack_matrix(env_t<T>& e, tensor_size_t rows, tensor_size_t cols)
 }
 
 // ------------------------------------------------------------------------------------------------------------------
-template <class T, size_t R>
-void run_case(vf::ctx_t& c, const std::array<tensor_size_t, 5>& dims5, int type_id)
+template <class T>
+__attribute__((noinline)) void fill_codes(const env_t<T>& e, T* data, tensor_size_t size)
 {
-    const ref_t r(R, dims5.data());
-    const auto  dims = r.as<R>();
-    env_t<T>    e(c, r.size, dims_string(dims5.data(), R));
-    auto&       rng = c.rng;
-
-    // the tensor under test: an exactly-sized heap block holding the codes of the linear offsets
-    block_t<T> blk(r.size);
-    for (tensor_size_t k = 0; k < r.size; ++k)
+    for (tensor_size_t k = 0; k < size; ++k)
     {
-        blk.data()[k] = e.val(k);
+        data[k] = e.val(k);
     }
-    T* const   base = blk.data();
-    auto       map  = map_tensor(base, dims);
-    const auto cmap = map_tensor(static_cast<const T*>(base), dims);
-    static_assert(std::is_same_v<decltype(map), tensor_map_t<T, R>>);
-    static_assert(std::is_same_v<std::remove_const_t<decltype(cmap)>, tensor_cmap_t<T, R>>);
+}
 
-    check_reads<true, T, R>(e, r, map, base, "map");
-    check_reads<true, T, R>(e, r, cmap, base, "cmap");
+__attribute__((noinline)) void make_gather_lists(vf::rng_t& rng, const ref_t& r, std::vector<tensor_size_t>& list, std::vector<tensor_size_t>& reversed)
+{
+    const auto d0  = r.dims[0];
+    const auto cap = std::max<tensor_size_t>(1, 200000 / std::max<tensor_size_t>(1, r.stride[0]));
+    const auto len = (d0 == 0) ? 0 : rng.integer(0, std::min<tensor_size_t>(cap, (d0 <= 8) ? 6 : 2 * d0));
+    for (tensor_size_t k = 0; k < len; ++k)
     {
-        tensor_mem_t<T, R> mem  = map;
-        const auto&        kmem = mem;
-        check_reads<false, T, R>(e, r, mem, mem.data(), "mem");
-        check_reads<false, T, R>(e, r, kmem, mem.data(), "const-mem");
+        list.push_back(rng.integer(0, d0 - 1));
     }
-    check_conversions<T, R>(e, r, map, cmap, base);
-
-    // gathers: random index lists (repeats allowed), the empty list, a reversed range
-    const auto                 d0 = r.dims[0];
-    std::vector<tensor_size_t> list;
-    uint64_t                   lhash = 0;
+    if (d0 > 0 && d0 <= cap)
     {
-        const auto cap = std::max<tensor_size_t>(1, 200000 / std::max<tensor_size_t>(1, r.stride[0]));
-        const auto len = (d0 == 0) ? 0 : rng.integer(0, std::min<tensor_size_t>(cap, (d0 <= 8) ? 6 : 2 * d0));
-        for (tensor_size_t k = 0; k < len; ++k)
+        for (tensor_size_t k = d0; k-- > 0;)
         {
-            list.push_back(rng.integer(0, d0 - 1));
-        }
-        lhash = vf::hash_bytes(list.data(), list.size() * sizeof(tensor_size_t));
-        tensor_mem_t<T, R> mem = map;
-        check_gather<1 | 8, T, R>(e, r, map, list, "map");
-        check_gather<1 | 2 | 4, T, R>(e, r, cmap, list, "cmap");
-        check_gather<1, T, R>(e, r, mem, list, "mem");
-        check_gather<1 | 2 | 4, T, R>(e, r, cmap, std::vector<tensor_size_t>{}, "cmap");
-        if (d0 > 0 && d0 <= cap)
-        {
-            std::vector<tensor_size_t> reversed;
-            for (tensor_size_t k = d0; k-- > 0;)
-            {
-                reversed.push_back(k);
-            }
-            check_gather<1, T, R>(e, r, mem, reversed, "mem");
+            reversed.push_back(k);
         }
     }
+}
 
-    check_integral<T, R>(e, r);
-    check_remove_if<T, R>(e, r, cmap);
-    if constexpr (R == 1)
-    {
-        check_stack_vector(e, r.dims[0]);
-    }
-    if constexpr (R == 2)
-    {
-        check_stack_matrix(e, r.dims[0], r.dims[1]);
-    }
-    check_writes<T, R>(e, r, map, base);
-
+template <class T>
+__attribute__((noinline)) void finish_case(env_t<T>& e, const ref_t& r, const T* base, int type_id, const std::vector<tensor_size_t>& list)
+{
+    auto& c = e.c;
     // the block still holds what it held
     e.count("block_unchanged");
-    if (!holds_codes(e, cmap, r.size))
+    if (!holds_codes<T>(e, base, r.size, r.size))
     {
         e.bad("block-changed", "map", vf::json_t());
     }
-
     c.maxc("elements", r.size);
-    c.count(std::string("rank") + std::to_string(R));
+    c.count("rank" + std::to_string(r.rank));
+    c.count(std::string("type_") + tname<T>());
     e.flush();
     if (r.size >= 2)
     {
-        uint64_t h = vf::mix(static_cast<uint64_t>(type_id), R);
-        h          = vf::hash_bytes(dims.data(), sizeof(tensor_size_t) * R, h);
-        c.nontrivial(vf::mix(h, lhash));
+        uint64_t h = vf::mix(static_cast<uint64_t>(type_id), r.rank);
+        h          = vf::hash_bytes(r.dims.data(), sizeof(tensor_size_t) * r.rank, h);
+        c.nontrivial(vf::mix(h, vf::hash_bytes(list.data(), list.size() * sizeof(tensor_size_t))));
     }
     else
     {
@@ -1444,8 +1529,60 @@ void run_case(vf::ctx_t& c, const std::array<tensor_size_t, 5>& dims5, int type_
     }
     if (c.want_sample())
     {
-        c.sample(vf::json_t().kv("scalar", tname<T>()).kv("rank", static_cast<long long>(R)).kv("dims", e.dims_str).kv("elements", static_cast<long long>(r.size)).arr("gather_indices", list.data(), list.size(), 32));
+        c.sample(vf::json_t().kv("scalar", tname<T>()).kv("rank", static_cast<long long>(r.rank)).kv("dims", e.dims_str).kv("elements", static_cast<long long>(r.size)).kv("suite", full_suite<T> ? "full" : "light").arr("gather_indices", list.data(), list.size(), 32));
     }
+}
+
+template <class T, size_t R>
+void run_case(vf::ctx_t& c, const std::array<tensor_size_t, 5>& dims5, int type_id)
+{
+    const ref_t r(R, dims5.data());
+    const auto  dims = r.as<R>();
+    env_t<T>    e(c, r.size, dims_string(dims5.data(), R));
+
+    // the tensor under test: an exactly-sized heap block holding the codes of the linear offsets
+    block_t<T> blk(r.size);
+    T* const   base = blk.data();
+    fill_codes(e, base, r.size);
+    auto       map  = map_tensor(base, dims);
+    const auto cmap = map_tensor(static_cast<const T*>(base), dims);
+    static_assert(std::is_same_v<decltype(map), tensor_map_t<T, R>>);
+    static_assert(std::is_same_v<std::remove_const_t<decltype(cmap)>, tensor_cmap_t<T, R>>);
+
+    // gathers: a random index list (repeats allowed), the empty list, the reversed range
+    std::vector<tensor_size_t> list, reversed;
+    const std::vector<tensor_size_t> empty;
+    make_gather_lists(c.rng, r, list, reversed);
+
+    check_reads(e, r, shim_t<T, R, decltype(map)>::template make<full_suite<T>>(map, base, "map"));
+    if constexpr (with_extras<T, R>)
+    {
+        check_conversions<T, R>(e, r, map, cmap, base);
+        check_gather<1 | 8, T, R>(e, r, map, list, "map");
+        check_gather<1 | 2 | 4, T, R>(e, r, cmap, list, "cmap");
+        check_gather<1, T, R>(e, r, cmap, empty, "cmap");
+        check_integral<T, R>(e, r);
+        e.count("cases_with_conversions_gathers_integral");
+    }
+    if constexpr (full_suite<T>)
+    {
+        check_reads(e, r, shim_t<T, R, decltype(cmap)>::template make<true>(cmap, base, "cmap"));
+        const tensor_mem_t<T, R> mem = map;
+        check_reads(e, r, shim_t<T, R, const tensor_mem_t<T, R>>::template make<false>(mem, mem.data(), "mem"));
+        check_gather<1, T, R>(e, r, mem, reversed, "mem");
+        check_remove_if<T, R>(e, r, cmap);
+        if constexpr (R == 1)
+        {
+            check_stack_vector(e, r.dims[0]);
+        }
+        if constexpr (R == 2)
+        {
+            check_stack_matrix(e, r.dims[0], r.dims[1]);
+        }
+        check_writes<T, R>(e, r, map, base);
+        e.count("cases_with_full_suite");
+    }
+    finish_case(e, r, base, type_id, list);
 }
 
 template <class T>
@@ -1463,6 +1600,14 @@ void run_rank(vf::ctx_t& c, int rank, const std::array<tensor_size_t, 5>& dims, 
 
 void run_type(vf::ctx_t& c, int type_id, int rank, const std::array<tensor_size_t, 5>& dims)
 {
+#ifdef C16_ONE
+    run_rank<double>(c, rank, dims, type_id);
+    return;
+#endif
+#ifdef C16_ONE_LIGHT
+    run_rank<float>(c, rank, dims, type_id);
+    return;
+#endif
     switch (type_id)
     {
     case 0: run_rank<int8_t>(c, rank, dims, type_id); break;
